@@ -45,7 +45,9 @@ OptsAt(p, O) ==
   IN [id \in 1..Len(p) |-> At(id)]
 
 \* ---------------------------------------------------------------- group numbering (basic rule)
-IsCapturing(p, os, id) == p[id].op = "grp" /\ (p[id].nm # "" \/ "n" \notin os[id])
+\* a balancing group (?<cap-uncap>..) (op "bal": nm = cap, cls = uncap) is a named capturing group when cap is not empty
+IsCapturing(p, os, id) == \/ p[id].op = "grp" /\ (p[id].nm # "" \/ "n" \notin os[id])
+                          \/ p[id].op = "bal" /\ p[id].nm # ""
 
 UnnamedIds(p, os) == {id \in 1..Len(p) : IsCapturing(p, os, id) /\ p[id].nm = ""}
 NamedIds(p, os)   == {id \in 1..Len(p) : IsCapturing(p, os, id) /\ p[id].nm # ""}
@@ -71,7 +73,7 @@ AllRunes == << <<0, MaxRune>> >>
 
 Sem(op, rs, neg, cls, ic, n, g) ==
   [op |-> op, rs |-> rs, neg |-> neg, cls |-> cls, ic |-> ic,
-   min |-> n.min, max |-> n.max, lazy |-> n.lazy, kids |-> n.kids, g |-> g]
+   min |-> n.min, max |-> n.max, lazy |-> n.lazy, kids |-> n.kids, g |-> g, ug |-> 0]
 
 ShCls(dia, c) ==
   IF dia = "net" THEN c
@@ -99,6 +101,7 @@ ElabNode(p, os, dia, id) ==
     [] n.op = "B"      -> plain(IF dia = "ecma" THEN "newb" ELSE IF dia = "re2" THEN "nawb" ELSE "nwb")
     [] n.op = "grp"    -> Sem("grp", <<>>, FALSE, "", FALSE, n, GroupNumOf(p, os, id))
     [] n.op = "opt"    -> Sem("grp", <<>>, FALSE, "", FALSE, n, 0)
+    [] n.op = "bal"    -> [Sem("bal", <<>>, FALSE, "", FALSE, n, GroupNumOf(p, os, id)) EXCEPT !.ug = NameNum(p, os, n.cls)]
     [] n.op = "optset" -> plain("empty")
     [] n.op \in {"ref", "condref"} ->
          Sem(n.op, <<>>, FALSE, "", ic, n, IF n.g > 0 THEN n.g ELSE NameNum(p, os, n.nm))
@@ -120,8 +123,9 @@ PreOrder(p) == \A id \in 1..Len(p) : \A j \in 1..Len(p[id].kids) :
 \* every reference designates a capturing group that exists
 RefsResolve(p, O, dia) ==
   LET os == OptsAt(p, O)  e == Elab(p, O, dia) IN
-  \A id \in 1..Len(p) : p[id].op \in {"ref", "condref"} =>
-      e[id].g >= 1 /\ e[id].g <= NumCaptureGroups(p, os)
+  /\ \A id \in 1..Len(p) : p[id].op \in {"ref", "condref"} =>
+        e[id].g >= 1 /\ e[id].g <= NumCaptureGroups(p, os)
+  /\ \A id \in 1..Len(p) : p[id].op = "bal" => e[id].ug >= 1
 
 \* inline option items only where their textual scope equals their concatenation
 OptsetPlacement(p) ==
